@@ -24,6 +24,7 @@ static fv_script_t *fv_cur_script; static int fv_cur_pos;
 static int *fv_wraps; static int fv_nwraps, fv_wrappos;
 static FILE *fv_files[FV_MAXSRC]; static long fv_off[FV_MAXSRC];  /* one stdio stream per source */
 static long fv_read_calls = 0, fv_read_bytes = 0;
+static int fv_logreads = 0;                               /* 1: trace the bytes delivered so far; 2: and every read request */
 static jmp_buf fv_jmp; static int fv_in_run = 0, fv_eof_seen = 0;
 static long fv_max_events = 200000, fv_events = 0;
 int fv_bol_needed = 0, fv_has_lineno = 0, fv_bufsize = 16384, fv_default_rule = 0, fv_cont = 0;
@@ -41,10 +42,9 @@ static void fv_hex(const char *t, long n) {
     long i; for (i = 0; i < n; i++) printf("%02x", (unsigned char) t[i]);
     if (n == 0) printf("-");
 }
-static int fv_logreads = 0;                               /* trace the bytes delivered so far */
 void fv_log_match(int rule, const char *text, long leng, long lineno, int start, int atbol) {
     fv_event();
-    if (fv_logreads) printf("rd %ld\n", fv_read_bytes);
+    if (fv_logreads == 1) printf("rd %ld\n", fv_read_bytes);
     printf("m %d ", rule); fv_hex(text, leng); printf(" %ld %d %d\n", lineno, start, atbol);
     /* an action execution begins: select its script (the default rule's ECHO takes none) */
     if (fv_default_rule) { fv_default_rule = 0; fv_cur_script = NULL; fv_cur_pos = 0; return; }
@@ -71,6 +71,7 @@ int fv_read(void *file, char *buf, size_t max_size) {
     long want, left; int k, id = -1;
     for (k = 0; k < fv_nreaderr; k++) if (fv_readerr[k] == fv_read_calls) { fv_read_calls++; fv_fatal("input in flex scanner failed"); }
     fv_read_calls++;
+    if (fv_logreads >= 2) printf("rq %ld\n", (long) max_size);      /* what yy_get_next_buffer() asked for */
     for (k = 0; k < FV_MAXSRC; k++) if (fv_files[k] && (void *) fv_files[k] == file) { id = k; break; }
     if (id < 0) return 0;
     left = fv_srclen[id] - fv_off[id];
